@@ -223,7 +223,7 @@ def evaluate__mod_operator(self: XPathToken, context: ta.ContextType = None) \
 
     try:
         if isinstance(op1, int) and isinstance(op2, int):
-            return op1 % op2 if op1 * op2 >= 0 else -(abs(op1) % op2)
+            return abs(op1) % abs(op2) if op1 >= 0 else -(abs(op1) % abs(op2))
         return op1 % op2  # type: ignore[operator]
     except TypeError as err:
         raise self.error('FORG0006', err) from None
